@@ -202,6 +202,14 @@ def skeleton(fl, body, with_nested=True):
                     closure_effects.add(l.replace("call* ", "call "))
     rets = set()
     for e in ret_leaves(body):
+        e = norm(e)
+        # `Ok(flag)` with a boolean variable may be either constant: it covers `Ok(true)` and `Ok(false)`
+        if e[0] == "agg" and e[1] == "adt" and len(e[3]) == 1 and e[3][0][0] in ("var", "tmp"):
+            l_ = body.name_local.get(e[3][0][1]) if e[3][0][0] == "var" else e[3][0][1]
+            if isinstance(l_, int) and l_ < len(body.locals) and body.locals[l_]["ty"] == "bool":
+                for c_ in (0, 1):
+                    rets.add(ret_class(body, None, None, ("agg", e[1], e[2], (("const", c_, "bool"),), e[4])))
+                continue
         rets.add(ret_class(body, None, None, e))
     return sig, closure_effects, rets
 
